@@ -124,20 +124,28 @@ func GenerateSpecAndRoutes(args arguments.CliArguments) error {
 		return err
 	}
 
-	// Generate the routes first
+	// Build the spec in memory first: a project whose spec cannot be generated (an undeclared security
+	// scheme, a scheme the OpenAPI validation refuses, ...) must not leave a routes file behind
+	specBytes, err := swagen.GenerateSpec(
+		&config.OpenAPIGeneratorConfig,
+		meta.Flat,
+		&meta.Models,
+		meta.PlainErrorPresent,
+	)
+	if err != nil {
+		logger.Fatal("Failed to generate OpenAPI spec - %v", err)
+		return err
+	}
+
+	// Generate (and write) the routes
 	if err := routes.GenerateRoutes(config, meta); err != nil {
 		logger.Fatal("Failed to generate routes - %v", err)
 		return err
 	}
 
-	// Generate the spec
-	if err := swagen.GenerateAndOutputSpec(
-		&config.OpenAPIGeneratorConfig,
-		meta.Flat,
-		&meta.Models,
-		meta.PlainErrorPresent,
-	); err != nil {
-		logger.Fatal("Failed to generate OpenAPI spec - %v", err)
+	// Finally, write the spec
+	if err := swagen.OutputSpec(&config.OpenAPIGeneratorConfig, specBytes); err != nil {
+		logger.Fatal("Failed to write OpenAPI spec - %v", err)
 		return err
 	}
 
